@@ -95,11 +95,25 @@ struct Plan {
 pub struct C04;
 
 fn gen_cookie(r: &mut Rng) -> String {
-    match r.below(6) {
+    match r.below(8) {
         0 => String::new(),
         1 => "x".repeat(r.range(500, 4096) as usize),
         2 => "sécrèt-クッキー-🍪".to_string(),
         3 => "0".to_string(),
+        4 => {
+            // text that a tidy-minded reader of cookie files would trim or fold
+            let core: String = (0..r.range(1, 12)).map(|_| (b'a' + r.below(26) as u8) as char).collect();
+            match r.below(8) {
+                0 => format!("{}\n", core),
+                1 => format!("{}\r\n", core),
+                2 => format!(" {}", core),
+                3 => format!("{} ", core),
+                4 => format!("{}\t", core),
+                5 => format!("{}\0", core),
+                6 => core.to_uppercase(),
+                _ => format!("\n{}", core),
+            }
+        }
         _ => {
             let n = r.range(1, 30) as usize;
             (0..n).map(|_| (b'A' + r.below(26) as u8) as char).collect()
@@ -184,7 +198,7 @@ fn gen_attempt(r: &mut Rng, idx: usize, timeout_ms: u64, deviate: bool) -> Attem
         return a;
     }
     match r.below(5) {
-        0 => a.status = (*r.pick(&["nok", "not_allowed", "alive", "weird", "wrongtag", "empty"])).to_string(),
+        0 => a.status = (*r.pick(&["nok", "not_allowed", "alive", "weird", "weird_long", "wrongtag", "empty"])).to_string(),
         1 => a.challenge = (*r.pick(&["wrongtag", "short", "namelen", "badutf8", "twice", "before_status", "oldformat"])).to_string(),
         2 => a.ack = (*r.pick(&["random", "wrong_cookie", "peer_challenge", "stale", "wrongtag", "short", "early", "none"])).to_string(),
         3 => {
@@ -209,6 +223,18 @@ fn gen_attempt(r: &mut Rng, idx: usize, timeout_ms: u64, deviate: bool) -> Attem
 }
 
 /// Digests that are wrong in a structured way (what a hand-rolled comparison might let through).
+/// An unknown status text of `len` bytes (about): a short ASCII prefix, then one multi-byte character
+/// repeated, so that any fixed byte offset may fall inside a character.
+fn long_status(a: u32, b: u32) -> String {
+    let len = [40usize, 63, 64, 65, 66, 100, 255, 256, 300, 1000, 4096, 65_000][(a % 12) as usize];
+    let ch = ['é', '日', '🍪'][(b % 3) as usize];
+    let mut s = "x".repeat(((a / 12) % 5) as usize);
+    while s.len() + ch.len_utf8() <= len {
+        s.push(ch);
+    }
+    s
+}
+
 fn render_unpadded(d: &[u8], hex: bool) -> String {
     d.iter().map(|b| if hex { format!("{:x}", b) } else { format!("{}", b) }).collect()
 }
@@ -502,6 +528,7 @@ async fn peer_attempt(w: Arc<World>, mut conn: ServerConn, a: Attempt, cookie: S
     let status_frame: Vec<u8> = match a.status.as_str() {
         "ok" | "ok_simultaneous" | "nok" | "not_allowed" | "alive" => wire::hs_status(&a.status),
         "weird" => wire::hs_status("okay"),
+        "weird_long" => wire::hs_status(&long_status(a.peer_challenge, a.peer_creation)),
         "wrongtag" => {
             let mut f = wire::hs_status("ok");
             f[0] = b'S';
@@ -883,7 +910,8 @@ fn api_history(w: &Arc<World>, p: &Plan) {
                 desc = format!("prepare_send_name -> {}", r.is_ok());
             }
             "status" => {
-                let text = ["ok", "ok_simultaneous", "nok", "not_allowed", "alive", "bogus", "", "ok"][(s.arg % 8) as usize];
+                let long = long_status(s.challenge, s.flags as u32);
+                let text = if s.arg >= 12 { long.as_str() } else { ["ok", "ok_simultaneous", "nok", "not_allowed", "alive", "bogus", "", "ok"][(s.arg % 8) as usize] };
                 let mut data = wire::hs_status(text);
                 if s.arg == 6 {
                     data.clear();
@@ -891,12 +919,12 @@ fn api_history(w: &Arc<World>, p: &Plan) {
                 let r = sm.handle_status(&data);
                 let want_ok = matches!(text, "ok" | "ok_simultaneous") && s.arg != 6;
                 if r.is_ok() && !want_ok {
-                    w.violation("status-handling", format!("handle_status({:?}) returned Ok", text));
+                    w.violation("status-handling", format!("handle_status({:?}) returned Ok", text.chars().take(40).collect::<String>()));
                 }
                 if r.is_err() && want_ok {
                     w.stat("c04.valid_input_rejected");
                 }
-                desc = format!("handle_status({}) -> {}", text, r.is_ok());
+                desc = format!("handle_status({}) -> {}", text.chars().take(12).collect::<String>(), r.is_ok());
             }
             "complement" => {
                 let r = sm.prepare_complement();
